@@ -473,6 +473,9 @@ class SyncObj(object):
                 if changeClusterRequest is None or self.__changeCluster(changeClusterRequest):
 
                     self.__raftLog.add(command, idx, term)
+                    if changeClusterRequest is not None:
+                        # Further membership changes are refused until this one is committed
+                        self.__changeClusterIDx = idx
 
                     if requestNode is None:
                         if callback is not None:
